@@ -6,6 +6,7 @@ import (
 	"github.com/pentops/j5/gen/j5/source/v1/source_j5pb"
 	"github.com/pentops/j5/gen/j5/sourcedef/v1/sourcedef_j5pb"
 	"github.com/pentops/j5/internal/bcl/errpos"
+	"github.com/pentops/j5/internal/export"
 	"github.com/pentops/j5/internal/j5s/j5convert"
 	"github.com/pentops/j5/internal/structure"
 	"github.com/pentops/j5/lib/j5schema"
@@ -168,6 +169,11 @@ func HarnessClientAPI() {
 	if err != nil {
 		return
 	}
+	// the two renderings of the client API: the J5 JSON form and the OpenAPI document
+	jdef, jerr := export.FromProto(client)
+	verifAssert(jerr == nil && jdef != nil, "j5-json-rendering-built")
+	doc, derr := export.BuildSwagger(client)
+	verifAssert(derr == nil && doc != nil, "openapi-document-built")
 	verifAssert(len(client.Packages) == 1 && len(client.Packages[0].Services) == 1, "exactly-the-declared-service")
 	if len(client.Packages) != 1 || len(client.Packages[0].Services) != 1 {
 		return
